@@ -3,12 +3,14 @@
 package main
 
 import (
+	"bytes"
 	"encoding/binary"
 	"fmt"
 	"strings"
 	"time"
 
 	"github.com/fatedier/frp/pkg/msg"
+	"github.com/fatedier/frp/pkg/util/util"
 
 	"verif/mc/drv"
 	"verif/mc/vs"
@@ -80,8 +82,87 @@ func scFirst(name string) func(x *vs.Exec) {
 	}
 }
 
+// pipe: a peer whose first message is followed at once — in the same segment — by the bytes that belong to the rest of
+// the connection. The server must take exactly the frame ("without reading past the frame") and hand the rest on:
+//   visitor : NewVisitorConn + payload          -> the payload reaches the proxy owner and comes back
+//   work    : NewWorkConn + early backend bytes -> the user that is given this work connection receives them
+func scPipe(kind string) func(x *vs.Exec) {
+	return func(x *vs.Exec) {
+		defer sw.Guard()
+		w := sw.New(x, sw.Opt{AllowPorts: sw.P(20000, 20001), UserConnTimeout: 5, HeartbeatTimeout: -1})
+		owner := w.MustLogin("owner", sw.LoginOpt{User: "u1"})
+		switch kind {
+		case "visitor":
+			owner.AutoWork()
+			if r := owner.Reg(&msg.NewProxy{ProxyName: "s", ProxyType: "stcp", Sk: "sk1", AllowUsers: []string{"*"}}); !strings.HasPrefix(r, "ok") {
+				vs.Fail("setup: %s", r)
+				return
+			}
+			w.Quiesce()
+			c, err := w.H.DialFrom("10.6.0.1:900", "127.0.0.1:7000")
+			if err != nil {
+				vs.Fail("dial: %v", err)
+				return
+			}
+			ts := w.Now()
+			var buf bytes.Buffer
+			msg.WriteMsg(&buf, &msg.NewVisitorConn{ProxyName: "s", Timestamp: ts, SignKey: util.GetAuthKey("sk1", ts)})
+			payload := "PIPELINED-right-behind-the-first-frame"
+			buf.WriteString(payload)
+			c.Write(buf.Bytes()) // one segment
+			var resp msg.NewVisitorConnResp
+			done := false
+			var rerr error
+			go func() { rerr = msg.ReadMsgInto(c, &resp); done = true }()
+			if !vs.BlockOrIdle("resp|idle", func() bool { return done }) || rerr != nil || resp.Error != "" {
+				vs.Fail("pipelined visitor: no acceptance (err=%v resp=%q)", rerr, resp.Error)
+				return
+			}
+			back := make([]byte, len(payload))
+			if _, idle, err := c.ReadFullOrIdle(back); idle || err != nil || string(back) != payload {
+				vs.Fail("visitor bytes sent in the same segment as the NewVisitorConn frame did not travel through the stream: got %q (idle=%v err=%v); the server read past the first frame", back, idle, err)
+			}
+			c.Close()
+		case "work":
+			if r := owner.Reg(&msg.NewProxy{ProxyName: "t", ProxyType: "tcp", RemotePort: 20000}); r != "ok:20000" {
+				vs.Fail("setup: %s", r)
+				return
+			}
+			w.Quiesce()
+			early := "EARLY-bytes-of-the-backend"
+			owner.OnReq = func(p *sw.Peer) {
+				go func() {
+					c, err := w.Dial()
+					if err != nil {
+						return
+					}
+					var buf bytes.Buffer
+					msg.WriteMsg(&buf, &msg.NewWorkConn{RunID: p.RunID})
+					buf.WriteString(early)
+					c.Write(buf.Bytes()) // one segment
+					p.ServeWorkOn(c)
+				}()
+			}
+			u, err := w.H.DialFrom("10.6.0.2:901", "127.0.0.1:20000")
+			if err != nil {
+				vs.Fail("dial: %v", err)
+				return
+			}
+			got := make([]byte, len(early))
+			if _, idle, err := u.ReadFullOrIdle(got); idle || err != nil || string(got) != early {
+				vs.Fail("bytes sent in the same segment as the NewWorkConn frame did not reach the user served by that work connection: got %q (idle=%v err=%v); the server read past the first frame", got, idle, err)
+			}
+			u.Close()
+		}
+		w.Teardown()
+	}
+}
+
 func scenarios() {
 	vs.ScenarioFactory = func(name string) *vs.Scenario {
+		if strings.HasPrefix(name, "pipe/") {
+			return &vs.Scenario{Name: name, Horizon: 300 * time.Second, MaxSteps: 100000, NoEarlyTick: true, End: sw.StdEnd, Body: scPipe(strings.TrimPrefix(name, "pipe/"))}
+		}
 		if _, ok := firsts[strings.TrimPrefix(name, "first/")]; !ok {
 			return nil
 		}
@@ -94,11 +175,14 @@ func main() {
 	if c == nil {
 		return
 	}
-	c.Rule(fmt.Sprintf("E1: %d kinds of malformed / unexpected first messages sent to the real frps on the virtual network (default schedule and all schedules with one deviation); the offending connection must be closed within the read timeout, the server dump unchanged, another session still answers heartbeats and serves traffic", len(firsts)))
+	c.Rule(fmt.Sprintf("E1: %d kinds of malformed / unexpected first messages sent to the real frps on the virtual network (default schedule and all schedules with one deviation); the offending connection must be closed within the read timeout, the server dump unchanged, another session still answers heartbeats and serves traffic; first messages followed in the same segment by the connection's payload (visitor stream, early bytes of a work connection): the payload travels on, nothing is read past the frame", len(firsts)))
 	i := 0
 	for name := range firsts {
 		c.Explore("first/"+name, drv.Pick(c, 1, 2), 1.0/float64(len(firsts)-i))
 		i++
+	}
+	for _, k := range []string{"visitor", "work"} {
+		c.Explore("pipe/"+k, 1, 0.5)
 	}
 	c.Finish()
 }
